@@ -398,14 +398,18 @@ class AsyncClient(base_client.BaseClient):
         if not self.connected:
             return
         namespace = namespace or '/'
-        await self._trigger_event('disconnect', namespace,
-                                  self.reason.SERVER_DISCONNECT)
-        await self._trigger_event('__disconnect_final', namespace)
-        if namespace in self.namespaces:
-            del self.namespaces[namespace]
-        if not self.namespaces:
-            self.connected = False
-            await self.eio.disconnect(abort=True)
+        try:
+            await self._trigger_event('disconnect', namespace,
+                                      self.reason.SERVER_DISCONNECT)
+        finally:
+            # a failing disconnect handler must not keep the namespace
+            # listed as connected
+            await self._trigger_event('__disconnect_final', namespace)
+            if namespace in self.namespaces:
+                del self.namespaces[namespace]
+            if not self.namespaces:
+                self.connected = False
+                await self.eio.disconnect(abort=True)
 
     async def _handle_event(self, namespace, id, data):
         namespace = namespace or '/'
@@ -599,9 +603,15 @@ class AsyncClient(base_client.BaseClient):
         self.logger.info('Engine.IO connection dropped')
         self._transport_ended = True
         will_reconnect = self.reconnection and self.eio.state == 'connected'
+        error = None
         if self.connected:
             for n in self.namespaces:
-                await self._trigger_event('disconnect', n, reason)
+                try:
+                    await self._trigger_event('disconnect', n, reason)
+                except Exception as exc:
+                    # a failing disconnect handler must not prevent the
+                    # notification of the other namespaces and the clean up
+                    error = error or exc
                 if not will_reconnect:
                     await self._trigger_event('__disconnect_final', n)
             self.connected = False
@@ -612,6 +622,8 @@ class AsyncClient(base_client.BaseClient):
         if will_reconnect and not self._reconnect_task:
             self._reconnect_task = self.start_background_task(
                 self._handle_reconnect)
+        if error is not None:
+            raise error
 
     def _engineio_client_class(self):
         return engineio.AsyncClient
